@@ -574,6 +574,8 @@ func run(tier, unit string, r *vlib.Rec) {
 		runClasses(r, lo, hi)
 	case "apivalues":
 		runAPIValues(r)
+	case "edits":
+		runEdits(r, lo, hi)
 	case "datepairs":
 		runDatePairs(r)
 	case "pairs": // all ordered pairs of trees with exactly n and m<=n nodes over the halved alphabet
@@ -747,6 +749,7 @@ func plan(tier string) []string {
 	out = append(out, "wide:0:0:1")
 	out = append(out, vlib.Chunks("classes:0", int64(len(classPool)), 2)...)
 	out = append(out, "apivalues:0:0:1")
+	out = append(out, vlib.Chunks("edits:0", int64(len(classPool)), 4)...)
 	out = append(out, "datepairs:0:0:1")
 	for n := 1; n <= 3; n++ {
 		out = append(out, vlib.Chunks(fmt.Sprintf("kinds:%d", n), int64(len(gen.AllTrees(n)))*gen.Pow(len(kindLabels), n), 3000)...)
@@ -774,6 +777,13 @@ func replay(c json.RawMessage) (string, string) {
 	if k.Sub == "datepairs" {
 		p := strings.SplitN(k.Arg, "\x00", 3)
 		return checkDatePair(p[0], p[1], p[2])
+	}
+	if k.Sub == "edits" {
+		p := strings.Split(k.Arg, "\x00")
+		ek, _ := strconv.Atoi(p[2])
+		ci, _ := strconv.Atoi(p[3])
+		sig, what, _ := checkEdit(p[0], p[1], ek, ci, p[4] == "true")
+		return sig, what
 	}
 	if k.Sub == "apivalues" {
 		p := strings.SplitN(k.Arg, "\x00", 2)
@@ -836,7 +846,7 @@ func main() {
 		Run:    run,
 		Replay: replay,
 		Required: func(string) []string {
-			req := []string{"wide", "kind:SEX", "kind:SOUR", "copynode", "copy:DeepCopy", "copy:Filter-identity", "copy:decode-encode", "perm", "edit:insert", "edit:delete", "edit:change", "indep:AddNode", "indep:DeleteNode", "indep:SetNodes-nil", "pairs", "pairs:equal"}
+			req := []string{"wide", "kind:SEX", "kind:SOUR", "copynode", "copy:DeepCopy", "copy:Filter-identity", "copy:decode-encode", "perm", "edit:insert", "edit:delete", "edit:change", "indep:AddNode", "indep:DeleteNode", "indep:SetNodes-nil", "pairs", "pairs:equal", "edits", "edits:DeleteNode", "edits:SetNodes(without)", "edits:DeleteNodesWithTag"}
 			for _, l := range alphabet {
 				req = append(req, "label:"+l.Tag+" "+l.Value)
 			}
